@@ -120,10 +120,13 @@ pub fn run(f: &[&str]) -> String {
             let kind: u32 = f[4].parse().unwrap_or(1);
             let mut outs = vec![];
             // several chunkings must all give the same outcome; print the first, flag disagreement
-            for spec in ["r1", "r3", "r64", "rx7"] {
-                let mut rd = ChunkReader::from_spec(&data, spec);
+            // ... persistent failures, and ONE-SHOT failures (suffix '!': the reader fails once, then delivers the remaining bytes — io::Bytes does not
+            // latch errors, so a parser that drops an Err somewhere goes on and returns a value or a different error)
+            for spec in ["r1", "r3", "r64", "rx7", "r1!", "r5!"] {
+                let mut rd = ChunkReader::from_spec(&data, spec.trim_end_matches('!'));
                 rd.fail_at = Some(k.min(data.len()));
                 rd.fail_kind = kind_of(kind);
+                rd.one_shot = spec.ends_with('!');
                 let s = if f[2].starts_with('i') {
                     res_unit(serde_json::from_reader::<_, IgnoredAny>(rd))
                 } else {
